@@ -51,7 +51,7 @@ pieces of one sequence with descending coordinates, numbered names running past 
     absent, or the contigs trail a long contig inside the final partial texel): every order of the names / of the
     coordinates x separators (abutting, one gap, a run of two) x strand patterns x the ways the map can show the rest;
   * runs every case of the other streams in which some scaffold has >= 2 contigs that no piece of the map shows a second
-    time (thorough: a third time) with re-labelled contigs.
+    time with re-labelled contigs (the four ways in rotation).
 The oracle is the one above: contigs the map does not show must still come out with no new direct adjacency.
 """
 
@@ -450,9 +450,10 @@ def relabel(rows, tag, order, names="distinct"):
     the rows with other contig labels; lengths, strands, gap rows and tags stay.  `order` is a permutation of the
     contig numbers 0..k-1: the contig on row position j gets the label of rank order[j] in (name, start) order.
       names = "distinct"  rank r is called ctg<tag><r-th letter> and runs 1..L
-      names = "pieces"    all contigs are pieces of the sequence old<tag>; rank r lies at 1000 * r + 1 .. 1000 * r + L,
-                          except that two pieces on the SAME strand separated by gap rows whose ranks follow each other
-                          in reading direction of that strand are contiguous in old<tag> (a contig an earlier round split)
+      names = "pieces"    all contigs are pieces of the sequence old<tag>; rank r starts one base behind the next multiple
+                          of 1000 after rank r - 1, except that two pieces on neighbouring row positions, on the SAME strand,
+                          separated by gap rows, whose ranks follow each other in reading direction of that strand, are
+                          contiguous in old<tag> (a contig an earlier round split: ctg7:301-500 (-), gap, ctg7:1-300 (-))
       names = "numbers"   rank r is called ctg<tag>n<8 + r> (numeric order and string order differ past nine)
     """
     out = []
@@ -466,9 +467,9 @@ def relabel(rows, tag, order, names="distinct"):
         for n, x in enumerate(by_rank):
             if n:
                 px = by_rank[n - 1]
-                gap_between = abs(px - x) == 1 and frs[px][4] == frs[x][4] and (x - px) * frs[x][4] > 0
                 # pieces that follow each other on row positions AND in the sequence, read in strand direction
-                pos += 0 if gap_between and separated_by_gap(rows, min(px, x)) else 1000 - (pos % 1000)
+                collinear = abs(px - x) == 1 and frs[px][4] == frs[x][4] and (x - px) * frs[x][4] > 0
+                pos += 0 if collinear and separated_by_gap(rows, min(px, x)) else 1000 - (pos % 1000)
             starts[x] = pos + 1
             pos += pg.row_len(frs[x])
     for r in rows:
@@ -541,7 +542,7 @@ def max_unshown_contigs(case):
     return best
 
 
-LEFTOVER_SEPARATORS = ((), (C10,), (S3, C1))
+LEFTOVER_SEPARATORS = ((), (C2,), (S3, C1))
 
 
 def leftover_order_inputs(tier):
@@ -579,17 +580,19 @@ def leftover_order_inputs(tier):
                             if quick and where == "both" and n % 3:
                                 continue
                             kk = k if where != "trailing" or k < 4 else 3
-                            lens = small[:kk]
-                            if bpt < 30 and where != "absent" and sum(lens) + sum(g[0] for r in sep_set[: kk - 1] for g in r) + 1 > 9:
-                                continue
-                            short = gap_run_scaffold("x", lens, strands[:kk], list(sep_set[: kk - 1]))["rows"]
+                            short = gap_run_scaffold("x", small[:kk], strands[:kk], list(sep_set[: kk - 1]))["rows"]
                             pm = [sorted(perm[:kk]).index(x) for x in perm[:kk]]
                             s1 = [pg.F("ctg1a", 1, 150, (1, -1)[n % 2])]
                             inp = []
                             if where in ("trailing", "both"):
                                 s1 = s1 + [pg.G(*(C1 if n % 4 else S3))] + relabel(short, "1t", pm, names)
+                                shown_to = pg.texels(pg.rows_len(s1), bpt, "floor") * pg.bptF(bpt)
+                                if shown_to > 150 + s1[1][1]:
+                                    continue  # the trailing contigs would not all lie inside the final partial texel
                             inp.append({"name": "scaffold_1", "rows": s1})
                             if where in ("absent", "both"):
+                                if pg.rows_len(short) >= bpt:
+                                    continue  # not shorter than a texel
                                 inp.append({"name": "scaffold_2", "rows": relabel(short, "2", pm, names)})
                             yield bpt, inp
 
@@ -602,7 +605,7 @@ def leftover_order_cases(tier):
     """
     quick = tier == "quick"
     i = 0
-    for bpt, inp in leftover_order_inputs(tier):
+    for ii, (bpt, inp) in enumerate(leftover_order_inputs(tier)):
         s1 = inp[0]
         trailing = len(s1["rows"]) > 1
         maps = []
@@ -617,7 +620,7 @@ def leftover_order_cases(tier):
                 maps.append([[[*b, -1, painted]], [[*a, 1, painted]]])
         for mi, scaffolds in enumerate(maps):
             i += 1
-            if quick and mi != i % len(maps):
+            if quick and mi != (5 * ii) % len(maps):
                 continue
             yield {"input": inp, "map": {"bpt": bpt, "scaffolds": scaffolds}, "prefix": "SUPER_", "via": pg.pick_via(inp, i)}
 
@@ -781,12 +784,19 @@ def run(tier, seed, **opts):
         "lengths, type contig, no gap, several different gaps, first gap 200 / scaffold or not) with maps that fuse whole "
         "scaffolds, swap or re-join halves of a cut scaffold, leave scaffolds out, plus seeded edit scripts: the written "
         "AGP / TPF files read back by this module's own readers and judged with the same oracle; "
+        "row order != (contig name, start) order: scaffolds whose 2-4 short contigs the map does not show (sub-texel scaffold absent, "
+        "contigs inside the final partial texel) with every order of names / of coordinates of pieces of one sequence, and every "
+        "case of the other families with >= 2 unshown contigs in a scaffold run again with re-labelled contigs (names descending, "
+        "pieces with descending coordinates, numbers past nine, seeded shuffle); "
         "non-trivial = distinct completed case whose outputs contain >= 1 junction"
     )
     quick = tier == "quick"
     stats = {"errors": 0, "junctions": 0}
+    # its own seeded stream for the re-labelling, so that the cases of the other families are what they were without it
+    rng_names = random.Random(7919 * seed + 17)
+    relabelled = [0]
 
-    def one(case, fam, gap_rule=True, classes=()):
+    def one(case, fam, gap_rule=True, classes=(), again=True):
         n = check(case, col, gap_rule, classes)
         if n is None:
             stats["errors"] += 1
@@ -795,6 +805,11 @@ def run(tier, seed, **opts):
         stats[fam] = stats.get(fam, 0) + 1
         ev = col.evaluations
         col.case((pg.case_key(case), gap_rule), nontrivial=bool(n), sample={"family": fam, **case} if (n and ev % 1499 == 0) else None)
+        if again and not case.get("cli") and max_unshown_contigs(case) >= 2:
+            # some scaffold has >= 2 contigs the map does not show: the same case with row order != (name, start) order
+            relabelled[0] += 1
+            style = NAME_ORDERS[relabelled[0] % len(NAME_ORDERS)]
+            one({**case, "input": renamed_contigs(case["input"], style, rng_names)}, "relabelled", gap_rule, classes, again=False)
 
     scopes = pg.tiny_scopes(tier)
     tiny_n = 0
@@ -844,6 +859,11 @@ def run(tier, seed, **opts):
             if pg.n_cut_pieces(case) >= 2 and rng.random() < 0.3:
                 one(drop_one_piece(case, rng), "gaprun-dropped", True, ("dropped-piece-map",))
     stats.pop("gr_i", None)
+    # contigs the map does not show, listed in every order of their names / coordinates
+    for case in leftover_order_cases(tier):
+        if col.full:
+            break
+        one(case, "leftover-order", again=False)
     # the tool's own command line: inputs whose gaps are not the join gap, maps joining non-neighbours
     for fam, case in cli_cases(tier, rng):
         if col.full:
@@ -858,7 +878,9 @@ def run(tier, seed, **opts):
             f"(2 pieces: {'6 seeded of the' if quick else 'all'} 16 arrangements, 3 pieces: {1 if quick else 8} seeded of 192), "
             "seeded inputs of 1-3 scaffolds x 1-4 contigs (1-150 bases) with runs of 0-3 gap rows; command line: "
             f"{len(CLI_PALETTES)} gap palettes on 3 scaffolds of 3/2/1 contigs (7-400 bases) at 10 bp per texel x 4 join maps x "
-            f"{'one rotating' if quick else 'every'} (rounding, sub-texel tail, input/output format) + {24 if quick else 1500} seeded edit scripts; <= 3 cuts "
+            f"{'one rotating' if quick else 'every'} (rounding, sub-texel tail, input/output format) + {24 if quick else 1500} seeded edit scripts; "
+            "unshown contigs: 2-4 contigs of 1-3 bases behind a 150-base contig and / or as an absent scaffold at 33.3 (thorough: and 10) bp per texel, all k! "
+            f"orders (quick: 6 of 24 for k = 4) x distinct names / pieces of one sequence, {'one rotating map' if quick else '8-16 maps'} each; <= 3 cuts "
             f"per scaffold; tiny scopes ({tiny_n} cases: {pg.describe_scopes(scopes)}) enumerated fully, the rest seeded; output junctions judged: "
             f"{stats['junctions']}; runs ending in an error (not judged): {stats['errors']}; per family: "
             + ", ".join(f"{k}={v}" for k, v in sorted(stats.items()) if k not in ("errors", "junctions"))
